@@ -28,7 +28,8 @@ from nbdime.args import (
     add_git_diff_driver_args, add_diff_cli_args, ConfigBackedParser,
     add_prettyprint_args
     )
-from nbdime.utils import locate_gitattributes, ensure_dir_exists, setup_std_streams
+from nbdime.utils import (
+    locate_gitattributes, ensure_dir_exists, setup_std_streams, has_notebook_attribute)
 from .filter_integration import apply_possible_filter
 
 def enable(scope=None):
@@ -50,7 +51,7 @@ def enable(scope=None):
     if os.path.exists(gitattributes):
         # (read as bytes: git does not require the file to be UTF-8)
         with io.open(gitattributes, 'rb') as f:
-            if b'diff=jupyternotebook' in f.read():
+            if has_notebook_attribute(f.read(), b'diff=jupyternotebook'):
                 # already written, nothing to do
                 return
     else:
